@@ -108,6 +108,7 @@ const HEADERS_GET: &str = "01080000d1d7500161c1";
 ///   q  the peer's QPACK encoder/decoder streams arrive before its control stream
 ///   t  the control stream's type byte, frame header and payload arrive in separate chunks
 ///   l  the peer's control stream arrives late: just before its first GOAWAY
+///   p  (server) requests are taken through poll_accept_request_stream + create_resolver, with shutdown(0) after None
 #[derive(Clone, Copy, Default)]
 struct Env {
     grease: bool,
@@ -116,6 +117,7 @@ struct Env {
     qpack_first: bool,
     split_type: bool,
     late_ctl: bool,
+    twin: bool,
 }
 fn parse_env(fam: &str) -> Env {
     let mut e = Env::default();
@@ -128,6 +130,7 @@ fn parse_env(fam: &str) -> Env {
                 'q' => e.qpack_first = true,
                 't' => e.split_type = true,
                 'l' => e.late_ctl = true,
+                'p' => e.twin = true,
                 _ => panic!("unknown environment letter"),
             }
         }
@@ -189,7 +192,11 @@ fn server_case(fam: &str, ops: &str) -> String {
         ctl_delivered = true;
     }
     let ctl = w.lock().unwrap().local_streams()[0];
-    let mut held: HashMap<u64, h3::server::RequestResolver<SimConn, Bytes>> = HashMap::new();
+    enum Held {
+        Res(h3::server::RequestResolver<SimConn, Bytes>),
+        Str(h3::server::RequestStream<SimBidi<Bytes>, Bytes>),
+    }
+    let mut held: HashMap<u64, Held> = HashMap::new();
     let mut groups: Vec<String> = Vec::new();
     let mut dead = false;
     // A call whose GOAWAY write is pending keeps its future (and with it the exclusive borrow of the connection)
@@ -233,6 +240,17 @@ fn server_case(fam: &str, ops: &str) -> String {
                         if kind == b'S' {
                             let n: usize = arg.parse().unwrap();
                             Box::pin(async move { Out::Shut(c.shutdown(n).await) })
+                        } else if env.twin {
+                            Box::pin(async move {
+                                let r = match std::future::poll_fn(|cx| c.poll_accept_request_stream(cx)).await {
+                                    Ok(Some(st)) => Ok(Some(c.create_resolver(h3::frame::FrameStream::new(
+                                        h3::stream::BufRecvStream::new(st),
+                                    )))),
+                                    Ok(None) => c.shutdown(0).await.map(|_| None),
+                                    Err(e) => Err(e),
+                                };
+                                Out::Acc(r)
+                            })
                         } else {
                             Box::pin(async move { Out::Acc(c.accept().await) })
                         }
@@ -248,7 +266,7 @@ fn server_case(fam: &str, ops: &str) -> String {
                     Poll::Ready(Out::Acc(Ok(Some(r)))) => {
                         let id = h3::quic::SendStream::<Bytes>::send_id(&r.frame_stream).into_inner();
                         shown = Some(id);
-                        held.insert(id, r);
+                        held.insert(id, Held::Res(r));
                     }
                     Poll::Ready(Out::Acc(Ok(None))) => answer = Some("none".into()),
                     Poll::Ready(Out::Acc(Err(e))) => {
@@ -271,6 +289,23 @@ fn server_case(fam: &str, ops: &str) -> String {
             b'C' => {
                 let id: u64 = arg.parse().unwrap();
                 held.remove(&id);
+            }
+            b'V' => {
+                // the application resolves the request it was shown: it must get the request
+                let id: u64 = arg.parse().unwrap();
+                match held.remove(&id) {
+                    Some(Held::Res(r)) => match poll_once(r.resolve_request()) {
+                        Poll::Ready(Ok((_req, st))) => {
+                            held.insert(id, Held::Str(st));
+                        }
+                        Poll::Ready(Err(_)) => answer = Some(format!("?{}", id)),
+                        Poll::Pending => answer = Some(format!("?{}", id)),
+                    },
+                    Some(o) => {
+                        held.insert(id, o);
+                    }
+                    None => {}
+                }
             }
             b'b' => {
                 // flow control closes on our control stream: writes stay pending
@@ -320,6 +355,18 @@ fn server_case(fam: &str, ops: &str) -> String {
         }
         if let Some(id) = shown {
             outs.push(format!("+{}", id));
+        }
+        // a stream that was shown must not be refused afterwards: STOP_SENDING / RESET on it is reported
+        for l in &g.log[log0..] {
+            let ws: Vec<&str> = l.split(' ').collect();
+            if ws.len() == 3 && (ws[0] == "stop" || ws[0] == "reset") {
+                if let Ok(id) = ws[1].parse::<u64>() {
+                    let t = format!("?{}", id);
+                    if (held.contains_key(&id) || shown == Some(id)) && !outs.contains(&t) && answer.as_deref() != Some(&t) {
+                        outs.push(t);
+                    }
+                }
+            }
         }
         if let Some(a) = answer {
             outs.push(a);
